@@ -63,3 +63,11 @@ End BasePath.
 Definition http_target (root name : str) : str :=
   let dir := if is_empty root then s_dot else root in
   path_join [dir; clean (SLASH :: name)].
+
+(* SymlinkIfPossible maps BOTH names (link target and link name) through RealPath;
+   LstatIfPossible / ReadlinkIfPossible map their single name *)
+Definition bp_symlink (base oldname newname : str) : option (str * str) :=
+  match real_path base oldname, real_path base newname with
+  | Some a, Some b => Some (a, b)
+  | _, _ => None
+  end.
